@@ -248,6 +248,7 @@ def obs_term(spec, o):
 # ---------------------------------------------------------------- the check
 def run(ctx):
     ctx.prove(["Props/C07.vo", "Run/eval_C07.vo"], extra_props=["Compose_C07_C19"])   # + acceptance discharges no_collision for data built from declarations + tagged imports; end-to-end C07+C19+C06+C04
+    import extractlib; extractlib.fn_tie(ctx, ['checkDupeTargets'])   # pure functions translated from the current source, re-proved equal to the models' (tools/notes/Translator.md)
     ctx.trusted_base += [
         "lib/c07gen.py (abstract package -> Go files; the definition id printed by each body; the Coq printer) and lib/projlib.py (runner, CALL/stderr projection)",
         "checks/c07.py: oracle = lower-cased multiset of runnable names; message parser (three fixed diagnoses of parse.go)",
